@@ -42,7 +42,7 @@ contract(MS_, "Shard.write", props=["C10", "C18", "C04"],
 
 contract(MS_, "Shard.close", props=["C10", "C04", "C16"],
     params={}, returns="ref:ShardInfo",
-    modifies=["Shard._shard_writer@self", "Writer.closed@self._shard_writer", "FileInfo.hash_checksums@self.shard_info.file_info0", "ghost:fs"],
+    modifies=["Shard._shard_writer@self", "Writer.closed@self._shard_writer", "FileInfo.hash_checksums@self.shard_info.file_infos[0]", "ghost:fs"],
     ensures=[
         "result is self.shard_info",
         "self._shard_writer is None",
@@ -84,7 +84,7 @@ contract(MF, CTX + ".close_shard", props=["C10", "C04", "C18"],
         "shard._shard_writer is not None",
     ],
     modifies=["Shard._shard_writer@shard", "Writer.closed@shard._shard_writer",
-              "FileInfo.hash_checksums@shard.shard_info.file_info0",
+              "FileInfo.hash_checksums@shard.shard_info.file_infos[0]",
               "_DatasetFillerContext._shards_lists@self", "ShardsList.shard_files", "ShardsList.number_of_examples",
               "ghost:fs"],
     ensures=["shard._shard_writer is None"],
